@@ -369,6 +369,17 @@ instrument/name.rs). -/
 def WFNames (defs : List Def) : Prop :=
   ∀ a ∈ defs, ∀ b ∈ defs, a.nameInternal = b.nameInternal → a = b
 
+/-- Instrument internal names are unique WITHIN each exchange: what `find_instrument_index` keys on
+(exchange id and internal name, index/mod.rs:142-157). Weaker than `WFNames`; enough for every
+`IndexedInstruments` clause (`Props.C11.lookups_inverse_instrument_weak`, `resolve_by_name_weak`,
+`rt_instruments_weak`); only the engine's name-keyed `InstrumentStates` needs the global form. The
+same predicate as `Props.C11.WFNamesEx` (`Props.C11.wfNamesPerExchange_iff`). -/
+def WFNamesPerExchange (defs : List Def) : Prop :=
+  ∀ a ∈ defs, ∀ b ∈ defs, a.exchange = b.exchange → a.nameInternal = b.nameInternal → a = b
+
+instance (defs : List Def) : Decidable (WFNamesPerExchange defs) := by
+  unfold WFNamesPerExchange; infer_instance
+
 instance (defs : List Def) : Decidable (WFAssets defs) := by unfold WFAssets; infer_instance
 instance (defs : List Def) : Decidable (WFNames defs) := by unfold WFNames; infer_instance
 
